@@ -41,6 +41,23 @@ def check(ctx):
               "silently downgraded)")
     prt = [n for n in V.cfg.nodes if isinstance(n.ast, ast.Assign) and dotted(n.ast.targets[0]) == "port"]
     ctx.check(any("self.requester.port" in src(n.ast.value) for n in prt), "D7-relative", rd, "redirect: port defaults to the current request's port for a relative Location", "")
+    # the current connection's port stands in only for a Location without a host; an absolute Location without an explicit
+    # port means the default port of its scheme
+    ctx.rule("T8-absolute", "self.requester.port is used only under the `Location has no hostname` condition")
+    for n in prt:
+        uses = [x for x in ast.walk(n.ast.value) if isinstance(x, ast.Attribute) and src(x) == "self.requester.port"]
+        if not uses:
+            continue
+        okp = bool(guard) and V.dominated_by_edge([n], guard[0], "T")
+        if not okp and isinstance(n.ast.value, ast.IfExp):
+            tst = src(n.ast.value.test)
+            if tst in ("not hostname", "not splits.hostname", "hostname is None", "splits.hostname is None"):
+                okp = not any(x in ast.walk(n.ast.value.orelse) for x in uses)
+            elif tst in ("hostname", "splits.hostname", "hostname is not None", "splits.hostname is not None"):
+                okp = not any(x in ast.walk(n.ast.value.body) for x in uses)
+        ctx.check(okp, "T8-absolute", n.ast, "redirect: %s only when the Location has no hostname" % src(n.ast),
+                  "an absolute Location without an explicit port (http://host/path) must resolve to the default port of its scheme; "
+                  "inheriting the current connection's port sends the redirected request to the wrong server")
     dg = V.tests(lambda t: src(t) == "self.requester.scheme == 'https' and scheme != 'https'")
     raises = [n for n in V.cfg.nodes if n.kind == "raise"]
     cl = V.call_nodes("self.connector.close")
